@@ -15,7 +15,7 @@ O(op) == [op |-> op, k |-> 0, then |-> "none", c |-> 0, d |-> 0, m |-> "-"]
 Thens == {"none", "start", "stop", "when"}
 OpsOf(m) ==
     {O("start")} \cup {[O("stop") EXCEPT !.then = t] : t \in Thens}
-    \cup {[O("when") EXCEPT !.k = k, !.then = t] : k \in 0..3, t \in Thens}
+    \cup {[O("when") EXCEPT !.k = k, !.then = t] : k \in (0 - 1)..3, t \in Thens}
     \cup (IF m.att # 0 THEN {O("succeed"), O("fail")} ELSE {})
     \cup {[O("prepok") EXCEPT !.c = c] : c \in m.hooks} \cup {[O("prepfail") EXCEPT !.c = c] : c \in m.hooks}
     \cup {[O("drop") EXCEPT !.c = c] : c \in m.conns}
